@@ -213,4 +213,15 @@ def k3(ctx, kr):
     kr.exhaustive = True
     kr.outside = ['JSON framing, URI<->path conversion, codespan; equality with `ironplcc check` follows from both calling FileBackedProject::semantic (same function in the MIR call graph)']
 
-KERNELS = [k3]
+# ---------------------------------------------------------------------------------------------- K4 the published start position is the one `check` prints
+@kernel('K4 lsp.start_position_as_check')
+def k4(ctx, kr):
+    """`ironplcc check` prints line:column of a label through codespan (line = number of line breaks before the offset, column = characters since the last one);
+    the language server computes the published range in lsp_project::map_label.  Same kernel as C05-K5: map_label on every document of <= 4 symbolic bytes and every span,
+    against that line/character reference."""
+    from . import C05 as K05
+    K05.k5(ctx, kr)
+    for f in kr.findings: f.role = f.role.replace('C05/K5/', 'C11/K4/')
+    kr.outside = list(kr.outside) + ['codespan\'s own line/column computation (the reference is its documented convention)']
+
+KERNELS = [k3, k4]
